@@ -594,7 +594,15 @@ def f_xmod(small=True):
     yield D([[m0, T("T0", [If([call("M0")], [T("N0", c)], has_else=True)])], [T("T1", [If(a1, c, has_else=True)])]])
 
 
+def f_plural():
+    """designs whose methods are one-element `Methods` collections, called through `Methods.__call__` (arguments and
+    enable_call must be forwarded): constant and run-time enables, validated arguments, every small single-method body pair"""
+    for d in itertools.chain(f_consten(), f_val(), f_flat(nmeth=1, small=True, args=True)):
+        yield dict(d, plural=True)
+
+
 FAMILIES = {
+    "plural": f_plural,
     "xmod": f_xmod,
     "provrel": f_provrel,
     "consten": f_consten,
